@@ -25,6 +25,14 @@ type Clock struct {
 	SleepFn  func(d time.Duration) // blocking sleep provided by the world
 
 	Steps int
+
+	hist []segment // closed segments, oldest first (for ground-truth queries about the past)
+}
+
+type segment struct {
+	from, to time.Time
+	offset   time.Duration
+	skewPPB  int64
 }
 
 func New(offset time.Duration, skewPPB int64, drift float64) *Clock {
@@ -39,10 +47,39 @@ func (c *Clock) OffsetAt(t time.Time) time.Duration {
 }
 
 func (c *Clock) offsetAtLocked(t time.Time) time.Duration {
-	el := t.Sub(c.base)
+	base, offset, skew := c.base, c.offset, c.skewPPB
+	if t.Before(c.base) {
+		for i := len(c.hist) - 1; i >= 0; i-- {
+			h := c.hist[i]
+			if !t.Before(h.from) || i == 0 {
+				base, offset, skew = h.from, h.offset, h.skewPPB
+				break
+			}
+		}
+	}
+	el := t.Sub(base)
 	// el * ppb / 1e9 without overflow for |el| < ~292 years and |ppb| < 1e6
-	sk := (int64(el)/1e9)*c.skewPPB + (int64(el)%1e9)*c.skewPPB/1e9
-	return c.offset + time.Duration(sk)
+	sk := (int64(el)/1e9)*skew + (int64(el)%1e9)*skew/1e9
+	return offset + time.Duration(sk)
+}
+
+// SteppedBetween reports whether the clock was stepped (or its rate changed) in [a,b].
+func (c *Clock) SteppedBetween(a, b time.Time) bool {
+	c.mu.Lock()
+	defer c.mu.Unlock()
+	for _, h := range c.hist {
+		if !h.to.Before(a) && !h.to.After(b) {
+			return true
+		}
+	}
+	return false
+}
+
+// InstantOf returns the virtual instant at which the clock showed reading, near hint.
+func (c *Clock) InstantOf(reading, hint time.Time) time.Time {
+	t := reading.Add(-c.OffsetAt(hint))
+	t = reading.Add(-c.OffsetAt(t))
+	return reading.Add(-c.OffsetAt(t))
 }
 
 // At returns the clock reading at virtual instant t.
@@ -63,6 +100,7 @@ func (c *Clock) Drift(d time.Duration) time.Duration {
 func (c *Clock) StepBy(d time.Duration) {
 	c.mu.Lock()
 	now := time.Now()
+	c.hist = append(c.hist, segment{c.base, now, c.offset, c.skewPPB})
 	c.offset = c.offsetAtLocked(now) + d
 	c.base = now
 	c.epoch++
@@ -98,6 +136,7 @@ func (c *Clock) Sleep(d time.Duration) {
 func (c *Clock) SetSkew(ppb int64) {
 	c.mu.Lock()
 	now := time.Now()
+	c.hist = append(c.hist, segment{c.base, now, c.offset, c.skewPPB})
 	c.offset = c.offsetAtLocked(now)
 	c.base = now
 	c.skewPPB = ppb
